@@ -358,7 +358,9 @@ func RunApi(sc ApiScenario, base string, emit func(Ev)) error {
 		code := r.call(a)
 		// the start is spawned asynchronously: give the stub a moment when something may have been spawned
 		if code < 400 && (a.Op == "start") {
-			dl := time.Now().Add(2 * time.Second)
+			// (up to 30 s: on a loaded machine fork + exec of the stub has been seen to take more than 2 s; a record that
+			// arrives after the rig has moved on would be counted for the NEXT action)
+			dl := time.Now().Add(30 * time.Second)
 			for time.Now().Before(dl) && len(r.readArgv()) == n0 {
 				time.Sleep(2 * time.Millisecond)
 			}
